@@ -8,13 +8,29 @@ ENGINES = [
      "kind_free_text": "SymPy results of the real SymbolicDim/parser code are translated to z3 Real/Int terms and proved equal to a reference semantics for all positive integer bindings"},
     {"name": "symnp+shadow", "path": "engine/symnp.py, engine/shadow.py", "serves_properties": ["C04"],
      "kind_free_text": "the current source of _type_casting/_core/serde is recompiled into shadow modules whose numpy/mmap/open/os globals are shims over z3 bit-vector cells and z3 arrays; the real tensor code then runs on fully symbolic payloads, offsets and file contents"},
-    {"name": "hist (on zsym)", "path": "engine/hist.py, engine/irlib.py", "serves_properties": ["C01", "C06", "C11", "C12", "C20"],
+    {"name": "hist (on zsym)", "path": "engine/hist.py, engine/irlib.py", "serves_properties": ["C01", "C06", "C11", "C12", "C13", "C19", "C20"],
      "kind_free_text": "bounded edit histories over the real IR classes with symbolic operand selectors and payload ints; z3 decides path feasibility, every feasible path is explored and its witness re-executed natively (guard against proxy intolerance)"},
     {"name": "zsym", "path": "engine/zsym.py", "serves_properties": ["C04", "C07", "C10", "C15"],
      "kind_free_text": "execution of the real functions on z3 Int/Real/String proxies with re-execution DFS over branch decisions; property = SMT query per path"},
 ]
 NOT_APPLICABLE = {}
 CHECKS = {
+    "C13": dict(
+        engine="hist (on zsym)", level="other", design_ref="DESIGN.md section 4 / C13",
+        technique="symbolic execution (zsym/z3) of clone-then-edit histories over the real Cloner / clone() / functionalize; proto equality, identity disjointness, differential snapshot of the untouched copy",
+        text=("A model with nested scopes, captured and shared values, a function, metadata on every carrier and device annotations (hand-built and after a proto round trip) is cloned through each entry point "
+              "(model/graph/function/subgraph with and without outer values/graph view/functionalized pass/deep copy); the clone must serialize exactly like the original, share no graph/node/value/shape/type/metadata "
+              "container, bind its annotations to its own values; then every edit of 28 kinds on every object of either copy (symbolic selectors) must leave the other copy's proto, meta stores and shapes unchanged."),
+        note="Trusted: z3; proxies cross-checked per path; observable state = serialized proto + meta + shape dims. One edit per history; objects stored inside meta are shared unless deep_copy (documented).",
+    ),
+    "C19": dict(
+        engine="hist (on zsym)", level="other", design_ref="DESIGN.md section 4 / C19",
+        technique="symbolic execution (zsym/z3) of bounded histories of annotation requests interleaved with graph edits, renames, clones and proto round trips",
+        text=("shard / set_pipeline_stage / add_/remove_device_configuration(cascade) with axis, num_shards, stage and num_devices as small symbolic integers (invalid values included) are interleaved with renames, "
+              "replace_input_with, resize_inputs/outputs, clone and serialize->deserialize at IR 11/13: after every step each annotation targets a current input/output of its node and a registered configuration, the "
+              "library's own check reports nothing, serialized references carry current names, round trips preserve the annotations, and rejected requests change nothing."),
+        note="Trusted: z3; proxies cross-checked per path. Histories of length 1 (full ranges) and 2 (near-valid shard first); group maps and shape reassignment are outside the claim.",
+    ),
     "C20": dict(
         engine="hist (on zsym)", level="other", design_ref="DESIGN.md section 4 / C20",
         technique="symbolic execution (zsym/z3) of bounded histories run plainly, inside nested journals (with/without exception) and under an independent completion counter; differential oracle",
